@@ -579,14 +579,17 @@ def _eq(I, a, b):
         x, y = to_expr(a), to_expr(b)
         if x == y:
             return True
-        if I is not None and getattr(I, "positive", None):
+        big = max(sp.count_ops(x, visual=False), sp.count_ops(y, visual=False)) > 120
+        if I is not None and getattr(I, "positive", None) and not big:
             # facts supplied by the rule (expressions known to be positive): x - y or y - x among them means x != y
             dxy = sp.expand(x - y)
             for pexpr in I.positive:
                 pe = sp.expand(pexpr)
                 if dxy == pe or dxy == -pe:
                     return False
-        r = sp.Eq(x, y)
+        # sympy decides Eq through expand/is_zero: on a large value graph that does not terminate in reasonable time, and an
+        # undecided comparison is a sound answer (both branches are followed)
+        r = sp.Eq(x, y, evaluate=False) if big else sp.Eq(x, y)
         return _pb(r)
     if isinstance(a, (tuple, list)) and isinstance(b, (tuple, list)):
         if type(a) is not type(b) or len(a) != len(b):
@@ -882,6 +885,12 @@ def value_attr(I, obj, name):
             return Builtin(name, lambda *sh: e)
         if name == "shape":
             return ()
+        if name in ("numerator", "denominator") and e.is_Rational:
+            return sp.Integer(e.p if name == "numerator" else e.q)
+        if name == "is_integer":
+            return Builtin(name, lambda: bool(e.is_integer) if e.is_number else sp.Eq(e, sp.floor(e)))
+        if name == "limit_denominator" and e.is_Rational:
+            return Builtin(name, lambda *a: e)
         raise SymRaise("AttributeError", f"number has no attribute {name}")
     if isinstance(obj, bytes):
         if name == "decode":
@@ -1763,6 +1772,30 @@ def external(I, dotted):
                 raise AnalysisError(f"literal {x!r}")
             return conv(v)
         return Builtin(dotted, lit)
+    if dotted == "fractions":
+        return ModuleVal(dotted, external=dotted)
+    if dotted == "fractions.Fraction":
+        def fraction(num=0, den=None):
+            # exact rationals are the interpreter's own numbers
+            if isinstance(num, str):
+                if den is not None:
+                    raise SymRaise("TypeError", "both arguments should be Rational instances")
+                try:
+                    from fractions import Fraction as _F
+                    fr_ = _F(num)
+                except ValueError:
+                    raise SymRaise("ValueError", f"Invalid literal for Fraction: {num!r}")
+                return sp.Rational(fr_.numerator, fr_.denominator)
+            if not _alg(num) or (den is not None and not _alg(den)):
+                raise SymRaise("TypeError", "Fraction of a non-number")
+            x = to_expr(num)
+            if den is not None:
+                d_ = to_expr(den)
+                if d_ == 0:
+                    raise SymRaise("ZeroDivisionError", "Fraction(%s, 0)" % x)
+                x = x / d_
+            return sp.nsimplify(x) if x.is_Float else x
+        return Builtin(dotted, fraction)
     if dotted == "enum.auto":
         return Builtin(dotted, lambda: I.new_obj("enum.auto()"))
     if dotted in ("enum.unique", "typing.final", "typing.runtime_checkable"):
